@@ -328,7 +328,7 @@ func shrinkAndModel(o *Obligation, opt *solveOpts) {
 					}
 				}
 				if lenTerm != "" {
-					extra = append(extra, app("bvsle", in.Term, app("bvadd", lenTerm, bvLitI(64, 16))))
+					extra = append(extra, app("bvsle", in.Term, bvAdd(lenTerm, bvLitI(64, 16))))
 				}
 			}
 		}
